@@ -48,7 +48,7 @@ def map_history(ops):
                 rho["b%d" % k] = V.int("b%d" % k, 0, (1 << (hi - lo)) - 1)
                 m[loc] = b
                 mask = ((1 << (hi - lo)) - 1) << lo
-                cur = cur - (cur & mask) + (rho["b%d" % k] << lo)
+                cur = (cur & (0xFFFFFFFF ^ mask)) | (rho["b%d" % k] << lo)
             else:
                 # sub-registers are read by evaluation (m[...] only looks whole registers up)
                 v = m[loc] if which == "all" else m(loc)
